@@ -219,7 +219,8 @@ def run_case(case):
             v('duplicate-response', f'two responses for ids {sorted(key)}')
         by_ids[key] = r
     computed = {frozenset(rq.request_id.split(' | ')): (rq, pp, rp) for rq, pp, rp in zip(rqs, ppaths, rpaths)}
-    margin = equipment['SI']['default'].sys_margins
+    margin = MARGIN                 # of the equipment document (not read back from the loaded object)
+    doc_modes = {(t['type_variety'], m['format']): m for t in eq['Transceiver'] for m in t.get('mode', [])}
     rows_expected = {}
     for kind, ids, rs in groups:
         transitions += 1
@@ -307,7 +308,7 @@ def run_case(case):
                     v('z-a-metric-is-not-this-request\'s', f'{where}: z-a {bad[0]} = {got.get(bad[0])!r}, the same request '
                       f'computed alone reports {ref[bad[0]]!r}')
         # expected CSV row
-        mode = next((m for m in equipment['Transceiver'][rq.tsp].mode if m['format'] == rq.tsp_mode), None)
+        mode = doc_modes.get((rq.tsp, rq.tsp_mode))
         rx = pp[-1]
         row = {'source': pp[0].uid, 'destination': pp[-1].uid, 'transponder-type': rq.tsp,
                'transponder-mode': rq.tsp_mode or '',
@@ -358,7 +359,7 @@ def run_case(case):
             continue
         tspo = next(o['path-route-object']['transponder'] for o in r['path-properties']['path-route-objects']
                     if 'transponder' in o['path-route-object'])
-        mode = next(m for m in equipment['Transceiver'][tspo['transponder-type']].mode if m['format'] == tspo['transponder-mode'])
+        mode = doc_modes[(tspo['transponder-type'], tspo['transponder-mode'])]
         thr = mode['OSNR'] + margin
         for delta in (-margin - 0.5, -margin / 2, -0.01, 0.0, 0.5):
             r2 = copy.deepcopy(r)
@@ -378,7 +379,9 @@ def run_case(case):
         tags['csv-threshold-probe'] = 1
     # the same response exported against another library that uses the same type / mode names with other thresholds
     if any('path-properties' in r for r in responses):
-        equipment2 = c.make_equipment(library(th, osnr_shift=1.5))
+        eq2 = library(th, osnr_shift=1.5)
+        doc_modes2 = {(t['type_variety'], m['format']): m for t in eq2['Transceiver'] for m in t.get('mode', [])}
+        equipment2 = c.make_equipment(eq2)
         buf = io.StringIO()
         jsontocsv(resp, equipment2, buf)
         for row in csv.DictReader(io.StringIO(buf.getvalue())):
@@ -387,8 +390,7 @@ def run_case(case):
                 continue
             tspo = next(o['path-route-object']['transponder'] for o in r['path-properties']['path-route-objects']
                         if 'transponder' in o['path-route-object'])
-            mode2 = next(m for m in equipment2['Transceiver'][tspo['transponder-type']].mode
-                         if m['format'] == tspo['transponder-mode'])
+            mode2 = doc_modes2[(tspo['transponder-type'], tspo['transponder-mode'])]
             thr2 = mode2['OSNR'] + margin
             low = next(m['accumulative-value'] for m in r['path-properties']['path-metric'] if m['metric-type'] == 'lowest_SNR-0.1nm')
             transitions += 1
